@@ -336,6 +336,8 @@ class Gen:
             add("Dn", "derivn")
         else:
             add("list", "tensor", 2)
+            if len(shape) == 3 and not free and not self.p.cplx and self.p.max_rank >= 3:
+                add("outer3", "compound", 2)
             if len(free) + len(shape) <= len(self.names):
                 add("comp", "tensor", 2)
             if len(shape) < 3:
@@ -363,6 +365,8 @@ class Gen:
                 add("T", "compound")
                 add("matmul", "compound")
                 add("outer", "compound", 2)
+                if not self.p.cplx:
+                    add("outerN", "compound")
                 add("dotmm", "compound")
                 if shape[0] == shape[1]:
                     add("sym", "compound")
@@ -581,6 +585,8 @@ class Gen:
         if op == "Dn":
             return ["Dn", self.with_field(e(shape, free, d), shape, free)]
         # ---- tensor valued
+        if op == "outer3":
+            return ["outerN", [e((shape[0],), (), d), e((shape[1],), (), d), e((shape[2],), (), d)]]
         if op == "list":
             return ["list", [e(shape[1:], free, d) for _ in range(shape[0])]]
         if op == "comp":
@@ -638,6 +644,14 @@ class Gen:
             return ["dot", e((shape[0], m), (), d), e((m, shape[1]), (), d)]
         if op == "outer":
             return ["outer", e((shape[0],), (), d), e((shape[1],), (), d)]
+        if op == "outerN":
+            # three operands: vector x scalar x vector, scalar x vector x vector, ... (the scalars keep the rank at 2)
+            a, b_ = e((shape[0],), (), d), e((shape[1],), (), d)
+            s_ = e((), (), min(d, 1))
+            k = self.pick([0, 1, 2])
+            ops_ = [a, b_]
+            ops_.insert(k, s_)
+            return ["outerN", ops_]
         if op in ("sym", "skew", "dev"):
             return [op, e(shape, (), d)]
         if op in ("inv", "cofac"):
